@@ -77,13 +77,17 @@ TEXT = {
         "technique": "Lean 4 proof (byte wrappers) + differential correspondence with executable predicate over all containers",
     },
     "C14": {
-        "level_text": "Proved (block level): a storage block is a Kmer32 word; set_by_addr (or-xor-or) changes exactly one base, get_by_addr reads it, "
-                      "block integer order = lexicographic order of its 32 bases (the per-block fact behind the derived Ord), blank(n) has "
-                      "ceil(n/32) zero blocks. The operation-history theorem is not yet proved; histories of all nine operations are "
-                      "executed with the raw storage observed after every step, and eq/hash/ord are compared with the base vector.",
+        "level_text": "Proved for every finite history (C14_history): push, extend (both phases: base-by-base up to the block boundary, then "
+                      "32 per block), push_bytes, set_mut, clear, blank, from_bytes, reverse and rc never panic on in-range arguments, keep the "
+                      "representation invariant (blocks = ceil(len/32), every lane from len on is zero) and act on the base vector as the same "
+                      "operation on a plain list. Observers (len, get, iter/to_bytes, ASCII, Display) are functions of the base vector "
+                      "(C14_observers); the representation is canonical, so derived ==/Hash depend only on the bases (C14_repr_canonical, "
+                      "C14_routes_agree); derived Ord = lexicographic order with a proper prefix first (C14_cmp_lex); ndiffs = number of "
+                      "differing positions; PackedDnaStringSet returns every added sequence at its index (C14_packed_set). The model is "
+                      "compared with the crate on raw storage words after every operation of random histories.",
         "design_ref": "DESIGN.md section 6, C14",
-        "level_note": COMMON_NOTE + "Partial: history/repr_inj/cmp_lex theorems missing.",
-        "technique": "Lean 4 proof (block-level refinement) + differential correspondence with executable predicate over operation histories",
+        "level_note": COMMON_NOTE,
+        "technique": "Lean 4 proof (refinement of DnaString to a plain base vector, invariant by induction over histories) + differential correspondence over operation histories",
     },
     "C15": {
         "level_text": "Proved (view algebra, for any backing string): slice-of-a-view reads the view at the shifted position in both orientations "
